@@ -69,6 +69,8 @@ typedef struct {
         RLE_RUN,  /* buffer up to the current position is a run */
         RLE_MIX   /* buffer up to the current position is a mix */
     } rle_state;  /* state of the buffer storage */
+    int encoding; /* the buffer holds bytes given to the encoder that are not in the file yet
+                     (the decoder keeps its position in the same buffer and state) */
 } comp_coder_rle_info_t;
 
 #ifdef __cplusplus
